@@ -87,7 +87,7 @@ pub fn lang_check_cfg(cfg: &ScannerCfg, which: Which, st: &mut Stats) -> Result<
                 st.count("pairs_where_states_were_removed");
             }
             let ntypes = {
-                let mut v: Vec<u32> = before.accepting.iter().flatten().cloned().collect();
+                let mut v: Vec<u64> = before.accepting.iter().flatten().cloned().collect();
                 v.sort();
                 v.dedup();
                 v.len()
@@ -184,10 +184,10 @@ pub fn lang_check_cfg(cfg: &ScannerCfg, which: Which, st: &mut Stats) -> Result<
     for (mi, (mode, md)) in cfg.modes.iter().zip(dump.iter()).enumerate() {
         check_structure(&md.automaton, class_count, &format!("mode {}", mi))
             .map_err(|e| Violation::new(e, case(json!({"mode": mi}))))?;
-        let pats: Vec<(Id, u32)> = mode
+        let pats: Vec<(Id, u64)> = mode
             .pats
             .iter()
-            .map(|p| (d.from_re(&p.re, &mut leaf_of), p.tt as u32))
+            .map(|p| (d.from_re(&p.re, &mut leaf_of), p.tt as u64))
             .collect();
         match explore_vs_patterns(&md.automaton, &impl_has, &mut d, &pats, &atoms, 300_000) {
             Explore::Equal(s) => {
@@ -211,13 +211,13 @@ pub fn lang_check_cfg(cfg: &ScannerCfg, which: Which, st: &mut Stats) -> Result<
             }
         }
         // lookaheads
-        let mut expected_las: Vec<(u32, bool)> = mode
+        let mut expected_las: Vec<(u64, bool)> = mode
             .pats
             .iter()
-            .filter_map(|p| p.la.as_ref().map(|l| (p.tt as u32, l.0)))
+            .filter_map(|p| p.la.as_ref().map(|l| (p.tt as u64, l.0)))
             .collect();
         expected_las.sort();
-        let got_las: Vec<(u32, bool)> = md.automaton.lookaheads.iter().map(|l| (l.0, l.1)).collect();
+        let got_las: Vec<(u64, bool)> = md.automaton.lookaheads.iter().map(|l| (l.0, l.1)).collect();
         if expected_las != got_las {
             return Err(Violation::new(
                 format!("mode {}: lookaheads (token type, is_positive) configured {:?}, compiled {:?}", mi, expected_las, got_las),
@@ -225,7 +225,7 @@ pub fn lang_check_cfg(cfg: &ScannerCfg, which: Which, st: &mut Stats) -> Result<
             ));
         }
         for (tt, _, la_auto) in &md.automaton.lookaheads {
-            let p = mode.pats.iter().find(|p| p.tt as u32 == *tt && p.la.is_some()).unwrap();
+            let p = mode.pats.iter().find(|p| p.tt as u64 == *tt && p.la.is_some()).unwrap();
             let la_re = &p.la.as_ref().unwrap().1;
             let id = d.from_re(la_re, &mut leaf_of);
             let norm = all_accept_as_zero(la_auto);
